@@ -305,6 +305,15 @@ def _c02_chunk(cases):
         got = nf_of_contents(soup.expr._contents)
         if got != expected:
             r.fail(Failure('C02', 'structure', src, repr(got), repr(expected)))
+            continue
+        # a user-supplied skip_envs name that does not occur in the document
+        # changes nothing: the built-in verbatim-like names stay in force
+        if 'verbatim' in constructs or '\\begin{' in src and len(src) % 3 == 0:
+            soup2, err2 = try_parse(src, skip=('zzuser',))
+            got2 = nf_of_contents(soup2.expr._contents) if soup2 is not None else err2
+            if got2 != expected:
+                r.fail(Failure('C02', 'structure', src, repr(got2), repr(expected),
+                               opts={'skip_envs': ['zzuser']}))
     return r
 
 
@@ -314,6 +323,17 @@ def oracle_C02(tier):
     for salt, kw in (('', {}), ('h', {'hostile': True})):
         for s, els in inputs.grammar_docs('C02', n if not salt else n // 4, depth, salt=salt, **kw):
             cases.append((s, gen.nf_all(els), gen.all_constructs(els)))
+    # characters that other notions of "blank" cover but the category table
+    # does not: between a command (or its last group) and a following group
+    # they are ordinary text, so the group is NOT an argument
+    for ch in gen.ODD_CHARS:
+        if ch == '\r':
+            continue
+        cases.append(('\\foo{a}' + ch + '{b} c',
+                      gen.merge_nf([('cmd', 'foo', [('Brace', [('t', 'a')])], []), ('t', ch),
+                                    ('group', 'Brace', [('t', 'b')]), ('t', ' c')]), ['cmd', 'group']))
+        cases.append(('\\foo' + ch + '[o] c',
+                      gen.merge_nf([('cmd', 'foo', [], []), ('t', ch + '[o] c')]), ['cmd']))
     res = Result('oracle-C02')
     for r in pmap(_c02_chunk, chunked(cases, NPROC * 2)):
         res.merge(r)
